@@ -67,6 +67,32 @@ pub fn check_history(h: &Hist, twin: bool) -> Result<(bool, Vec<&'static str>, V
                 }
             }
         }
+        // model-free, too: "exactly once" - within one check no (app, event type, result, error code) goes on the wire
+        // twice (download started 13/1, the per-app outcome 14/1 | 3/9 | 3/0+code, update complete 3/1 and the
+        // check-level deferred / denied / plan-error events are all distinct, and event reports are never retried)
+        {
+            let reqs = seg_requests(h, seg);
+            let ids_unique = ev.apps.iter().enumerate().all(|(i, a)| !ev.apps[..i].iter().any(|b| b.id == a.id));
+            if ids_unique {
+                let mut seen: Vec<(String, i64, i64, Option<i64>)> = vec![];
+                for (_, v, _, _) in reqs.iter().filter(|(_, v, _, _)| v.kind == ReqKind::Events) {
+                    for a in &v.apps {
+                        for evj in &a.events {
+                            let key = (a.id.clone(), evj.event_type, evj.event_result, evj.errorcode);
+                            if seen.contains(&key) {
+                                return Err(failure(
+                                    "event-reported-twice",
+                                    format!("the event (type {}, result {}, error code {:?}) for app {:?} was put on the wire twice in one check", evj.event_type, evj.event_result, evj.errorcode, a.id),
+                                    h,
+                                    around,
+                                ));
+                            }
+                            seen.push(key);
+                        }
+                    }
+                }
+            }
+        }
         if e.poll_ambiguous || !ev.poll_known || !e.complete {
             continue;
         }
